@@ -24,6 +24,7 @@ DAY0 = datetime(2019, 1, 1)
 ALL_BASE_DAYS = [DAY0 + timedelta(days=i) for i in range(2192)]  # 2019-01-01 .. 2024-12-31
 TODS = [(0, 0, 0, 0), (13, 14, 15, 123456), (23, 59, 59, 999999)]
 ALL_MD = [(m, d) for m in range(1, 13) for d in range(1, cal.month_len(2000, m) + 1)]
+STR_ZONES = [("+0530", 330), ("-0800", -480), ("EDT", -240), ("UTC", 0), ("+1400", 840), ("-1200", -720), ("JST", 540)]
 TZS = ["Asia/Kolkata", "Asia/Tokyo", "America/Phoenix", "Pacific/Kiritimati", "Pacific/Pago_Pago", "Asia/Kathmandu"]
 
 
@@ -43,11 +44,65 @@ def spaces(tier, seed):
                                         "hm": range(1440), "pref": PREFS}, note="all 1440 HH:MM, TIMEZONE=UTC"))
     sp.append(Product("time-only-zones", {"bday": [59, 1154], "tod": [1], "tz": TZS, "hm": range(0, 1440, 7) if not T else range(1440),
                                           "pref": PREFS}))
+    sp.append(Product("time-only-own-zone", {"bday": [73, 804, 1900], "tod": [0, 1, 2], "tz": [None, "UTC"],
+                                             "sz": range(len(STR_ZONES)), "hm": range(0, 1440, 7) if not T else range(1440), "pref": ["past", "future"]},
+                      note="'HH:MM <zone>': the string's own zone decides the instant; TIMEZONE is unset or UTC (process zone UTC), so the naive reference is a UTC instant"))
     sp.append(Product("two-digit-year", {"by": range(1970, 2068) if T else [1970, 1971, 1999, 2000, 2001, 2024, 2066, 2067],
                                          "bmd": [(1, 1), (6, 15), (12, 31)], "yy": range(100),
                                          "form": ["D Month YY", "MM/DD/YY"], "md": [(1, 1), (6, 15), (6, 16), (12, 31), (3, 1)],
                                          "pref": PREFS}))
     return sp
+
+
+def own_zone_case(c, b, pref):
+    """'HH:MM <zone>' with PREFER_DATES_FROM: the result is the nearest instant not after / not before the reference instant whose
+    wall clock in the string's zone is HH:MM (compared as instants; the reference is b read in TIMEZONE, UTC when unset)."""
+    H, M = divmod(c["hm"], 60)
+    zname, zmin = STR_ZONES[c["sz"]]
+    s = "%02d:%02d %s" % (H, M, zname)
+    st = {"RELATIVE_BASE": b, "PREFER_DATES_FROM": pref}
+    if c["tz"]:
+        st["TIMEZONE"] = c["tz"]
+    ref = b
+    # the one-day rule the library is known to apply (finding C09-K3): candidate = the reference's calendar day with the written
+    # wall clock, moved by exactly one day if it lies on the wrong side of the reference
+    cand = b.replace(hour=H, minute=M, second=0, microsecond=0)
+    rule = cand - timedelta(minutes=zmin)
+    if pref == "past" and ref < rule:
+        rule -= timedelta(days=1)
+    if pref == "future" and ref > rule:
+        rule += timedelta(days=1)
+    o = api.outcome_of(api.gdd, s, ["en"], None, None, st, None, False, False)
+    problems = []
+    got = None
+    if o[0] == "exc":
+        problems.append("exception " + o[1])
+        got = o[1:]
+    else:
+        r = got = o[1].date_obj
+        if r is None:
+            problems.append("no result")
+        elif r.tzinfo is None:
+            problems.append("naive result for a string that names a zone")
+        else:
+            inst = (r - r.utcoffset()).replace(tzinfo=None)            # UTC instant of the result
+            wall = inst + timedelta(minutes=zmin)                      # its wall clock in the string's zone
+            if (wall.hour, wall.minute, wall.second, wall.microsecond) != (H, M, 0, 0):
+                problems.append("time of day in the string's zone not preserved")
+            elif pref == "past" and not inst <= ref:
+                problems.append("after the reference")
+            elif pref == "future" and not inst >= ref:
+                problems.append("before the reference")
+            elif abs(inst - ref) >= timedelta(days=1):
+                problems.append("not the nearest occurrence")
+    if not problems:
+        return "ok", True, None
+    if problems[0] in ("after the reference", "before the reference", "not the nearest occurrence") and inst == rule:
+        problems = ["one-day rule: the candidate day is the reference's own calendar day, moved by at most one day, although the string's zone "
+                    "puts the nearest occurrence on another day"]
+    return "bad", True, {"cls": {"form": "time-only-own-zone", "pref": pref, "problem": problems[0], "TIMEZONE": c["tz"] or "unset"},
+                         "expected": "nearest instant %s the reference %s (UTC) with wall clock %02d:%02d in %s" % ("not after" if pref == "past" else "not before", ref, H, M, zname),
+                         "observed": got, "detail": {"string": s, "settings": st}}
 
 
 def base_of(c):
@@ -119,6 +174,8 @@ def run_case(sub, c):
                 p.append("outside the reference year")
             return p
         form = "day-month"
+    elif sub == "time-only-own-zone":
+        return own_zone_case(c, b, pref)
     elif sub.startswith("time-only"):
         H, M = divmod(c["hm"], 60)
         s = "%02d:%02d" % (H, M)
